@@ -661,6 +661,9 @@ impl World {
                 self.entities.remove(id);
             });
 
+        // Entities may have been removed above, so the next entity keys have changed.
+        self.reserved_entities.refresh(&self.entities);
+
         Some(info)
     }
 
